@@ -379,6 +379,7 @@ class World(masterloop.LoopWorld):
         self.intruded = set()
         self.pending_intrusion = None
         self.intrusion_fired = False
+        self.late_events = {}         # event node -> payload, posted mid-step
         self._setup_static()
 
     # ------------------------------------------------------------------
@@ -642,6 +643,20 @@ class World(masterloop.LoopWorld):
             for name in sorted(target - set(truth.apps)):
                 self._truth_app(name)
         elif path == z.EVENTS:
+            import re as _re
+            late = []
+            for node in sorted(self.late_events):
+                if node in children:
+                    del self.late_events[node]
+                elif self.zk.nodes.get(z.path.event(node)) is None:
+                    # posted while the master was handling this batch and
+                    # deleted by it: the master has taken it on
+                    payload = self.late_events.pop(node)
+                    if _re.match(r'\d+\-\w+\-\d+$', node):
+                        prio, resource, seq = node.split('-')
+                        late.append((prio, seq, resource, payload))
+            events = list(events) + sorted(
+                late, key=lambda e: (e[0], e[1], e[2]))
             for _prio, _seq, resource, payload in events:
                 if resource == 'allocations':
                     data = self._zk_obj(z.ALLOCATIONS)
@@ -909,14 +924,19 @@ class World(masterloop.LoopWorld):
             client.call_hook = None
             inner = plan['op']
             if inner['op'] not in ('presence_down', 'presence_up',
-                                   'app_delete_quiet'):
+                                   'app_delete_quiet', 'srv_set'):
                 raise simkit.HarnessError('intrusion %r' % (inner,))
+            ev_before = set(self.zk.children(z.EVENTS) or [])
             self.faults['mid_call_world_event'] = \
                 self.faults.get('mid_call_world_event', 0) + 1
             self.intrusion_fired = True
             if inner.get('name'):
                 self.intruded.add(inner['name'])
             getattr(self, 'op_' + inner['op'])(inner)
+            # events posted while the master is at work
+            for node in sorted(set(self.zk.children(z.EVENTS) or []) -
+                               ev_before):
+                self.late_events[node] = self._zk_obj(z.path.event(node))
         client.call_hook = hook
 
     def _node_client(self, name, fresh=False):
@@ -1972,8 +1992,9 @@ class Generator:
             item = self.follow.pop(0)
             if 'gen' in item:
                 # a scenario step that is decided when its turn comes
+                extra = {k: v for k, v in item.items() if k != 'gen'}
                 return getattr(self, 'g_' + item['gen'])(
-                    world, staged=True) or {'op': 'drain'}
+                    world, staged=True, **extra) or {'op': 'drain'}
             return item
         for _ in range(30):
             kind = rngmod.weighted(self.rng, self.weights)
@@ -2697,6 +2718,59 @@ class Generator:
             {'op': 'drain'}, {'op': 'master_cycle'}])
         return {'op': 'presence_down', 'name': name}
 
+    def g_late_event(self, world):
+        """An administrator moves a server to another partition (or takes
+        a trait off it) and posts the 'servers' event while the master is
+        busy with an earlier batch of events; then instances arrive that
+        belong where the server used to be."""
+        cands = []
+        for name in self._servers(world):
+            data = world._zk_obj(z.path.server(name)) or {}
+            if data.get('parent') and \
+                    world.zk.nodes.get(z.path.server_presence(name)):
+                cands.append((name, data))
+        if not cands or world.master is None:
+            return None
+        name, old = self.rng.choice(cands)
+        part = old.get('partition') or '_default'
+        others = [p for p in self.config['partitions'] if p != part]
+        traits = list(old.get('traits') or [])
+        proid = self.rng.choice(self.config['proids'])
+        manifest = {'memory': '256M', 'cpu': '10%', 'disk': '256M',
+                    'affinity': '%s.job' % proid}
+        if others and (not traits or self.rng.random() < 0.6):
+            newpart, newtraits = self.rng.choice(others), traits
+        elif traits:
+            lost = self.rng.choice(traits)
+            newpart, newtraits = part, [t for t in traits if t != lost]
+            manifest['traits'] = [lost]
+        else:
+            return None
+        limits = self.config['aff_limits'].get(manifest['affinity'])
+        if limits:
+            manifest['affinity_limits'] = limits
+        other = self.rng.choice([n for n, _d in cands])
+        # the earlier batch: something that names no server record
+        self.follow.extend([
+            self.rng.choice([
+                {'op': 'apps_blacklist', 'patterns': ['nobody.*']},
+                {'op': 'srv_state', 'name': other, 'state': 'up'}]),
+            {'op': 'snap', 'path': z.EVENTS},
+            {'op': 'process', 'intrude': {
+                'at': self.rng.choice([1, 2, 3, 4, 6]),
+                'op': {'op': 'srv_set', 'name': name,
+                       'parent': old['parent'], 'partition': newpart,
+                       'memory': old.get('memory'), 'cpu': old.get('cpu'),
+                       'disk': old.get('disk'), 'traits': newtraits,
+                       'up_since': old.get('up_since')}}},
+            {'op': 'drain'}, {'op': 'master_cycle'},
+            {'op': 'app_create', 'app_id': '%s.job' % proid,
+             'manifest': manifest, 'count': self.rng.randint(3, 6)},
+            {'op': 'drain'}, {'op': 'master_cycle'}])
+        # (first everything outstanding is handled, so that the step the
+        # change lands in is the one that handles that batch)
+        return {'op': 'drain'}
+
     def g_stale_presence_snapshot(self, world):
         """A server the master holds as down registers again, the watch
         fires, and the server is gone again before the master gets to the
@@ -2863,6 +2937,70 @@ class Generator:
             {'op': 'drain'}, {'op': 'master_cycle'}])
         return {'op': 'group', 'name': group,
                 'count': len(holders[group]) + 2}
+
+    def g_identity_shrink_regrow(self, world, staged=False, phase=0):
+        """A group is exactly full; the holder of a low identity leaves; the
+        group shrinks so that the holder of the highest identity loses it
+        and takes the freed one (usually staying where it is); the group
+        grows back, a new member takes the highest identity; fail-over."""
+        master = world.master
+        if master is None or not self.config['group_names']:
+            return None
+        holders = {}
+        for name in sorted(master.cell.apps):
+            app = master.cell.apps[name]
+            if app.identity_group and app.identity is not None and \
+                    app.server:
+                holders.setdefault(app.identity_group, {})[app.identity] = \
+                    name
+        full = [g for g, ids in sorted(holders.items())
+                if len(ids) >= 3 and sorted(ids) == list(range(len(ids)))]
+        if not full:
+            if staged:
+                return None
+            group = self.rng.choice(self.config['group_names'])
+            proid = self.rng.choice(self.config['proids'])
+            manifest = {'memory': '256M', 'cpu': '10%', 'disk': '256M',
+                        'affinity': '%s.db' % proid, 'identity_group': group}
+            limits = self.config['aff_limits'].get(manifest['affinity'])
+            if limits:
+                manifest['affinity_limits'] = limits
+            self.follow.extend([
+                {'gen': 'drop_group_members', 'group': group},
+                {'op': 'drain'}, {'op': 'master_cycle'},
+                {'op': 'app_create', 'app_id': '%s.db' % proid,
+                 'manifest': manifest, 'count': 3},
+                {'op': 'drain'}, {'op': 'master_cycle'},
+                {'gen': 'identity_shrink_regrow'}])
+            return {'op': 'group', 'name': group, 'count': 3}
+        group = self.rng.choice(full)
+        ids = holders[group]
+        count = len(ids)
+        leaver = ids[self.rng.randint(0, count - 2)]
+        appid = ids[count - 1].split('#')[0]
+        extra = dict(world._zk_obj(z.path.scheduled(ids[count - 1])) or {})
+        self.follow.extend([
+            {'op': 'drain'}, {'op': 'master_cycle'},
+            {'op': 'group', 'name': group, 'count': count - 1},
+            {'op': 'drain'}, {'op': 'master_cycle'},
+            {'op': 'group', 'name': group, 'count': count},
+            {'op': 'app_create', 'app_id': appid, 'manifest': extra,
+             'count': 1},
+            {'op': 'drain'}, {'op': 'master_cycle'}, {'op': 'restart'},
+            {'op': 'drain'}, {'op': 'master_cycle'}])
+        return {'op': 'app_delete', 'name': leaver}
+
+    def g_drop_group_members(self, world, staged=False, group=None):
+        """(staging step) instances of the group that are around already"""
+        names = [n for n in self._scheduled(world)
+                 if (world._zk_obj(z.path.scheduled(n)) or {}).get(
+                     'identity_group') == group]
+        if not names:
+            return None
+        if len(names) > 1:
+            self.follow.insert(0, {'gen': 'drop_group_members',
+                                   'group': group})
+        return {'op': 'app_delete', 'name': names[0]}
 
     def g_drop_giants(self, world, staged=False):
         for name in self._scheduled(world):
@@ -3167,6 +3305,8 @@ OP_WEIGHTS = [
     ('trait_lost_then_place', 3), ('stale_presence_snapshot', 3),
     ('overlapping_blackouts', 3), ('frozen_node_restart', 3),
     ('blackout_near_miss', 3), ('reload_race', 3),
+    ('identity_shrink_regrow', 3), ('drop_group_members', 0),
+    ('late_event', 3),
 ]
 
 
